@@ -89,6 +89,8 @@ func decode(route, target int, in []byte, opts []jsonv2.Options) (out any, err e
 		err = jsonv2.UnmarshalRead(&plainReader{b: in}, ptr, opts...)
 	case 2:
 		err = jsonv2.UnmarshalRead(bytes.NewBuffer(append([]byte(nil), in...)), ptr, opts...)
+	case 4:
+		err = jsonv2.UnmarshalRead(&plainReader{b: in, chunk: 1}, ptr, opts...)
 	case 3:
 		dec := jsontext.NewDecoder(&plainReader{b: in, chunk: 7})
 		err = jsonv2.UnmarshalDecode(dec, ptr, opts...)
@@ -119,7 +121,7 @@ func decode(route, target int, in []byte, opts []jsonv2.Options) (out any, err e
 	return out, err
 }
 
-var routeNames = []string{"Unmarshal", "UnmarshalRead(plain reader)", "UnmarshalRead(bytes.Buffer)", "UnmarshalDecode(7-byte reader)"}
+var routeNames = []string{"Unmarshal", "UnmarshalRead(plain reader)", "UnmarshalRead(bytes.Buffer)", "UnmarshalDecode(7-byte reader)", "UnmarshalRead(one-byte reader)"}
 var targetNames = []string{"*any", "*map[string]any", "*[]any", "*namedAny"}
 
 // checkValid checks one text that is valid under default options.
@@ -280,7 +282,13 @@ func stressors(r *evid.Run) {
 		}
 		docs = append(docs, "["+strings.Join(q, ",")+","+strings.Join(qr, ",")+"]", "{"+strings.Join(mem, ",")+"}")
 	}
-	// all 400 two-byte strings over a 20-byte alphabet, two orders (pigeonhole: collisions in any 256-slot cache)
+	// whitespace in every gap (before and after every delimiter), one to four characters of every kind
+	for _, ws := range []string{" ", "\n", "\t", "\r\n", "  ", " \n\t ", "\r\n\r\n"} {
+		toks := []string{"{", `"a"`, ":", "[", "1", ",", "2", ",", "{", `"b"`, ":", "null", ",", `"c"`, ":", "[", "]", "}", "]", ",", `"d"`, ":", `"e"`, "}"}
+		docs = append(docs, ws+strings.Join(toks, ws)+ws)
+		toks2 := []string{"[", "{", "}", ",", "[", "[", "]", "]", ",", `"s"`, ",", "1.5e1", ",", "true", "]"}
+		docs = append(docs, strings.Join(toks2, ws))
+	}
 	alpha := "abcdefghijklmnopqrst"
 	var fwd, rev []string
 	for i := 0; i < 20; i++ {
